@@ -131,9 +131,7 @@ func (s *Solver) start() error {
 		s.buf.WriteString("(set-option :produce-models true)\n")
 		fmt.Fprintf(&s.buf, "(set-option :timeout %d)\n", s.timeoutMs)
 	}
-	if s.kind != "cvc5" {
-		s.buf.WriteString("(set-option :global-declarations true)\n")
-	}
+	s.buf.WriteString("(set-option :global-declarations true)\n")
 	s.buf.WriteString("(set-logic QF_BV)\n")
 	s.inPath = false
 	return nil
